@@ -189,13 +189,13 @@ PLANS['C16'] = dict(
 PLANS['C13'] = dict(
     rule=RULE_B + RULE_A + 'all builds are ASan (detect_stack_use_after_return=1, freed memory quarantined); non-trivial = a wait or the final acquisition of the execution slept.',
     groups=[
-        G('refcount', 'c-asan', 'B', 6, 3000, owners=lambda w, h: sanitizer_owners(w, h) | ({'C13'} if w.get('oracle') in ('asan', 'crash') else set()) if w.get('oracle') in ('asan', 'ubsan', 'tsan', 'crash') else mu_mix_owners(w, h)),
+        G('refcount', 'c-asan', 'B', 8, 6000, thorough=60000, owners=lambda w, h: sanitizer_owners(w, h) | ({'C13'} if w.get('oracle') in ('asan', 'crash') else set()) if w.get('oracle') in ('asan', 'ubsan', 'tsan', 'crash') else mu_mix_owners(w, h)),
         G('refcount', 'c-asan', 'A', 2, 3000, thorough=60000, owners=lambda w, h: sanitizer_owners(w, h) | ({'C13'} if w.get('oracle') in ('asan', 'crash') else set()) if w.get('oracle') in ('asan', 'ubsan', 'tsan', 'crash') else mu_mix_owners(w, h)),
-        G('waitn', 'c-asan', 'B', 3, 2000, owners=None),
+        G('waitn', 'c-asan', 'B', 3, 3000, thorough=40000, owners=None),
         G('cv_tokens', 'c-asan', 'B', 2, 2000, owners=None),
-        G('mu_mix', 'c-asan', 'B', 3, 1500, owners=None),
+        G('mu_mix', 'c-asan', 'B', 4, 3000, thorough=30000, owners=None),
         G('mu_mix', 'c-asan', 'A', 2, 1000, thorough=20000, owners=None),
-        G('notes', 'c-asan', 'B', 2, 2000, owners=None),
+        G('notes', 'c-asan', 'B', 4, 4000, thorough=40000, owners=None),
         G('counter', 'c-asan', 'B', 3, 3000, owners=None),
         G('counter', 'c-asan', 'A', 1, 1500, thorough=30000, owners=None),
         G('refcount', 'cpp-asan', 'B', 4, 20000, tier='thorough', thorough=20000, owners=None),
